@@ -2,7 +2,10 @@
 directory and calls serialize(destination=<file name>).  It reports ONLY through its exit status (os._exit), so that
 no write of the harness is among the enumerated fault points:  0 returned normally, 3 an exception reached the
 caller, 4 the call returned something unexpected.
-usage: child.py <src dir> <work dir> <format> <file name> <size> [raise]"""
+usage: child.py <src dir> <work dir> <format> <file name> <size> [raise | fsize=<bytes> | again=<second work dir>]
+  fsize=N   sets RLIMIT_FSIZE to N just before the call (the kernel then performs a real SHORT write up to the limit and
+            fails the next one with EFBIG; Python ignores SIGXFSZ)
+  again=D   after the first call: chdir to D and serialise to the same (relative) name again, in the same process"""
 import os
 import sys
 
@@ -45,7 +48,8 @@ def pin_bnodes():
 
 def main(argv):
     src, work, fmt, name, size = argv[0], argv[1], argv[2], argv[3], int(argv[4])
-    poison = len(argv) > 5 and argv[5] == "raise"
+    extra = argv[5] if len(argv) > 5 else ""
+    poison = extra == "raise"
     sys.path.insert(0, src)
     import logging
     logging.disable(logging.CRITICAL)
@@ -55,8 +59,17 @@ def main(argv):
     pin_bnodes()
     d = make_doc(size, poison)
     os.chdir(work)
+    if extra.startswith("fsize="):
+        import resource
+        n = int(extra.split("=", 1)[1])
+        resource.setrlimit(resource.RLIMIT_FSIZE, (n, n))
     try:
         r = d.serialize(name, format=fmt)
+        if extra.startswith("again="):
+            os.chdir(extra.split("=", 1)[1])
+            r2 = d.serialize(name, format=fmt)
+            if r2 is not None:
+                os._exit(4)
     except BaseException:
         os._exit(3)
     os._exit(0 if r is None else 4)
